@@ -50,6 +50,8 @@ def plan(tier, seed):
     units += [{"kind": "blocks", "start": s, "stop": min(nb, s + step), "w": step} for s in range(0, nb, step)]
     nl = 24 if tier == "quick" else 960
     units += [{"kind": "large", "start": s, "stop": s + 1, "w": 3} for s in range(nl)]
+    nf = 40 if tier == "quick" else 800
+    units += [{"kind": "funclist", "start": s, "stop": min(nf, s + 10), "w": 2} for s in range(0, nf, 10)]
     return units
 
 
@@ -287,6 +289,33 @@ def run_large_kernel(ctx, i):
                  sample=lambda: {"scheme": name, "mesh": shape, "scale_in_pixel_spacings": f, "cond_covariance": cond, "min_eig": float(ev.min())})
 
 
+def run_funclist(ctx, i):
+    """Linear function lists as the regularized object (their parameters neighbour one another in a chain k - k+1), from the
+    smallest size - ONE parameter, no neighbour at all - upwards, for the schemes that need nothing but the neighbour structure."""
+    aa = ctx.aa
+    rng = gen.rng_for(ctx.seed, NO, 4, i)
+    P = (1, 2, 3, 1, 5, 8)[i % 6]
+    mask = aa.Mask2D.all_false(shape_native=(3, 4), pixel_scales=1.0)
+    Func = gen_aa.func_list_class(aa)
+    obj = Func(grid=aa.Grid2D.from_mask(mask=mask), M=rng.random((12, P)) + 0.1)
+    pairs = {(k, k + 1) for k in range(P - 1)}
+    desc = {"kind": "function_list", "params": P}
+    reg = aa.reg
+    for name, r in (("Constant", reg.Constant(coefficient=logu(rng, 0.01, 100.0))),
+                    ("ConstantZeroth", reg.ConstantZeroth(coefficient_neighbor=logu(rng, 0.01, 100.0), coefficient_zeroth=logu(rng, 0.01, 100.0))),
+                    ("Zeroth", reg.Zeroth(coefficient=logu(rng, 0.01, 100.0)))):
+        if not ctx.begin("funclist:%d:%s" % (i, name)):
+            continue
+        W = dict(mesh=desc, params=P, scheme_params={k: v for k, v in vars(r).items() if isinstance(v, (int, float))})
+        Hm = check_matrix(ctx, name, r, obj, desc, rng, pairs, W)
+        if Hm is None:
+            continue
+        # the same object inside an inversion: its block is this matrix
+        obj.regularization = r
+        ctx.case("funclist", name, P, sorted(W["scheme_params"].items()), nontrivial=True, cls=["scheme:" + name, "object:function_list", "params:%d" % P],
+                 sample=lambda: {"scheme": name, "object": "function list", "params": P, "min_eig": float(np.linalg.eigvalsh((Hm + Hm.T) / 2).min())})
+
+
 def run_blocks(ctx, i):
     aa = ctx.aa
     rng = gen.rng_for(ctx.seed, NO, 2, i)
@@ -342,4 +371,4 @@ def run_blocks(ctx, i):
 
 def run_unit(ctx, u):
     for i in range(u["start"], u["stop"]):
-        {"mesh": run_mesh, "blocks": run_blocks, "large": run_large_kernel}[u["kind"]](ctx, i)
+        {"mesh": run_mesh, "blocks": run_blocks, "large": run_large_kernel, "funclist": run_funclist}[u["kind"]](ctx, i)
